@@ -285,6 +285,8 @@ func (f *Frame) store(a *Addr, v *Val, st *State) {
 	var vs []*Term
 	if v.K == VFunc {
 		vs = []*Term{f.funcTerm(v)}
+	} else if v.K == VAddr && v.Addr.Kind == AElem && v.Addr.Path == "" {
+		vs = []*Term{f.elemPtr(v.Addr)}
 	} else {
 		vs = v.leaves()
 	}
@@ -305,6 +307,20 @@ func (f *Frame) store(a *Addr, v *Val, st *State) {
 		}
 		st.Set(l.key, l.sort, f.E.name(nt, f.prefix+"s$"+l.key))
 	}
+}
+
+// elemPtr: a pointer to an element of a backing array, stored as a value.  It is an
+// abstract reference owned by the backing array (negative, like the references of embedded
+// structs: allocated exactly when the array is), not nil; the element's contents are NOT
+// reachable through it (a load through such a pointer reads unconstrained fields, a store
+// through it is not seen by the array) - recorded as an assumption of the function.
+func (f *Frame) elemPtr(a *Addr) *Term {
+	name := "elemptr$" + typeKey(a.T)
+	f.E.declareFunSorted(name, []*Sort{IntS, IntS}, IntS)
+	r := App(name, IntS, a.Base, a.Idx)
+	f.assume(And(Lt(r, IntLit(0)), Eq(App("div", IntS, Neg(r), IntLit(subN)), a.Base)), "pointer to an array element: an abstract reference owned by the array")
+	f.E.Assumes["pointers to slice/array elements stored as values are abstract references: memory accessed through them is not connected to the element (function "+funcKey(f.Fn)+")"] = true
+	return r
 }
 
 func (f *Frame) funcTerm(v *Val) *Term {
